@@ -85,7 +85,7 @@ def cases_(draw):
             'empty_rows': draw(st.integers(0, 9)) == 0,      # rows of a resource without fields: {}
             'late': draw(st.integers(0, n + 1)),
             'schedule': draw(st.lists(st.integers(0, 7), max_size=400)),
-            'two_resources': draw(st.booleans())}
+            'two_resources': draw(st.booleans()), 'all_resources': draw(st.booleans())}
 
 
 def cases(tier):
@@ -206,7 +206,8 @@ def check(case, ctx):
 
     def consumer():
         step = dataflows.parallelize((lambda row: None) if empty else row_func, num_processors=N,
-                                     predicate=make_pred(pred, late), resources='res1')
+                                     predicate=make_pred(pred, late),
+                                     resources=None if case.get('all_resources') else 'res1')
         res, dp, _ = Flow(FeedStep(desc, tables), step).results(on_error=None)
         out['rows'] = res
     try:
@@ -235,8 +236,17 @@ def check(case, ctx):
         kind = 'lost-rows' if missing else 'duplicated-rows' if dup else 'wrong-values'
         raise Violation('rows:' + kind, {'missing': missing, 'duplicated': dup, 'wrong': wrong, 'N': N, 'pred': pred, 'rows': n,
                                          'trace_tail': s.trace[-25:]})
-    if case['two_resources'] and out['rows'][1] != tables[1]:
-        raise Violation('bystander-changed', {})
+    if case['two_resources']:
+        if not case.get('all_resources'):
+            if out['rows'][1] != tables[1]:
+                raise Violation('bystander-changed', {})
+        else:
+            # the second resource goes through its own fork/collect cycle
+            exp2 = []
+            for r in tables[1]:
+                exp2.append({'id': r['id'], 'v': r['v'] * 2, 'cnt': 1} if (selected(pred, late, r['id']) and not empty) else dict(r))
+            if canon(out['rows'][1]) != canon(exp2):
+                raise Violation('rows:second-parallelized-resource', {'got': out['rows'][1][:5], 'expected': exp2[:5], 'N': N, 'pred': pred})
     order = s.finish_order
     worker_first = False
     prod = next((i for i, nm in enumerate(order) if nm.startswith('thread') and 'producer' in nm), None)
